@@ -136,8 +136,10 @@ def install():
                 return self
             # gaps in symbolic columns: linear interpolation in time between the neighbouring known rows (concrete index, symbolic values),
             # nearest known value beyond the ends -- what method='time', limit_direction='both' does
-            if k.get('method', a[0] if a else None) != 'time' or not isinstance(self.index, pd.DatetimeIndex):
+            if k.get('method', a[0] if a else None) != 'time':
                 raise sym.Realisation('interpolate on symbolic column with gaps (method other than time)')
+            if not isinstance(self.index, pd.DatetimeIndex):
+                raise ValueError('time-weighted interpolation only works on Series or DataFrames with a DatetimeIndex')      # as pandas does
             from fractions import Fraction
             out = self.copy()
             ts = [int(t.value) for t in self.index]
